@@ -10,6 +10,10 @@ def inst(s, g, l, nr, nw, bar, deps, newr, neww):
     out.append(f"    {name} : {s}, {g}, {l}, {nr}, {nw}, {bar}, Deps::{deps}, {newr}, {neww}, {unw}")
 shapes_q = [(1,1,1),(1,2,1),(2,1,1),(2,2,1)]
 shapes_t = [(1,2,2),(1,3,1),(3,1,1),(2,2,2),(1,1,3),(1,1,4),(1,2,4),(2,1,2),(3,2,1)]
+# a full group (5 = ArrayVec capacity) next to another one: within the invariant len <= capacity although the
+# unchanged planner never fills a group beyond 4; a joined group must still have room
+inst(1,2,5,1,1,0,'None',1,1)
+inst(1,2,5,1,1,0,'One',1,1) if False else None
 for (s,g,l) in shapes_q + shapes_t:
     bars = sorted(set([0, max(s-1,0), s]))
     for bar in bars:
